@@ -121,10 +121,10 @@ func (g s1Gen) query() string {
 			b.WriteString(ascSpelling(b.Len()))
 		}
 		if g.rng.Chance(1, 2) {
-			b.WriteString(" skip " + Pick(g.rng, []string{"0", "1", "2"}))
+			b.WriteString(" skip " + Pick(g.rng, []string{"0", "0", "1", "1", "2", "2", "1000"}))
 		}
 		if g.rng.Chance(1, 2) {
-			b.WriteString(" limit " + Pick(g.rng, []string{"0", "1", "2", "5"}))
+			b.WriteString(" limit " + Pick(g.rng, []string{"0", "0", "1", "1", "2", "2", "5", "5", "2147483648", "9223372036854775807"}))
 		}
 	}
 	return b.String()
@@ -195,7 +195,7 @@ func (g s1Gen) s2QueryX(cross bool) string {
 
 // limitHopQuery: stage S2L — an S2b query with LIMIT k and neither ORDER BY nor SKIP (the shape on which limit pushdown fires).
 func (g s1Gen) limitHopQuery() string {
-	return g.s2Query() + " limit " + Pick(g.rng, []string{"0", "1", "1", "2", "3", "5", "50"})
+	return g.s2Query() + " limit " + Pick(g.rng, []string{"0", "0", "1", "1", "2", "3", "5", "50", "2147483648", "9223372036854775807"})
 }
 
 // withQuery: stage S3a — MATCH (n[:K…]) [WHERE p] WITH items RETURN items, plain items on both sides: the WITH exports the node under its own
@@ -314,10 +314,10 @@ func (g s1Gen) orderPropQuery() string {
 		b.WriteString(ascSpelling(b.Len()))
 	}
 	if g.rng.Chance(1, 3) {
-		b.WriteString(" skip " + Pick(g.rng, []string{"0", "1", "2"}))
+		b.WriteString(" skip " + Pick(g.rng, []string{"0", "0", "1", "1", "2", "2", "1000"}))
 	}
 	if g.rng.Chance(1, 3) {
-		b.WriteString(" limit " + Pick(g.rng, []string{"0", "1", "2", "5"}))
+		b.WriteString(" limit " + Pick(g.rng, []string{"0", "0", "1", "1", "2", "2", "5", "5", "2147483648", "9223372036854775807"}))
 	}
 	return b.String()
 }
